@@ -33,6 +33,7 @@ THEOREMS = [
     "RefineSmoothTree.for1_step", "RefineSmoothTree.for1_loop", "RefineSmoothTree.smooth_tree_eq", "C16Tree2.stepCol_frame", "C16Tree2.foldl_gather", "C16Tree2.pairwise_tree", "C16Tree2.good_tree", "C16Tree2.generated_smooth_tree", "C16Tree2.generated_smooth_tree_endpoints",
     # `Rep` derived: every ranked table represents a rose tree; the branch tree of a well-formed tree is ranked (preorder position); the driver theorem without `Rep`
     "RefineAsm.rep_exists", "C16Tree.rep_of_ranked", "C16Tree2.branch_pre_lt", "C16Tree.branchTree_ranked", "C16Tree.generated_resample_tree_wf",
+    "RefineAsm.rep_exists_sized", "RefineAsm.Desc.disjoint", "C16Tree.rep_of_ranked_sized", "C16Tree.branches_length_le", "C16Tree.generated_resample_tree_wf_full",
     "C16.pairArgmin_spec", "C16.pair_step_inv", "C16.pair_exact", "C16.pair_step_loc", "C16.pair_same_place",
 ]
 TRUSTED = ["hand-written rational models Model/Resample.lean of np.interp / linspace / arange, the two branch resamplers, the moving-average smoother and the "
